@@ -116,6 +116,7 @@ class C14(Check):
         if not any(cfg["fault_weights"].values()):
             cfg["fault_weights"]["save_crash_restore"] = 1
         cfg["max_crash_points"] = 10 if tier == "quick" else 16
+        cfg["reuse_path"] = r.random() < 0.5      # one checkpoint file overwritten at successive crash points
         return {"config": cfg, "ops": []}
 
     def simplify(self, s):
@@ -183,7 +184,7 @@ class C14(Check):
         ctx.ev("crash_point", k, kind, [int(x) for x in r1[6]])
         what = "crash point %d (%s)" % (k, kind)
         sa = sim.sa
-        path = "mem://c14-%d" % k
+        path = "mem://checkpoint" if cfg.get("reuse_path") else "mem://c14-%d" % k
         a, b = cfg["a"], cfg["b"]
         P = query_points(rk, a, b, 5)
         # __call__ raises for extend-split without boundary points (known finding of C07) and is not supported on grids
